@@ -38,6 +38,7 @@ impl Hist for C16 {
             BOp::Style(0),
             BOp::Style(1),
             BOp::Style(2),
+            BOp::Style(4),
             BOp::StyleRoundTrip,
             BOp::FinishMsg("f\t"),
             BOp::Msg("\t\t"),
@@ -139,9 +140,9 @@ pub fn run(tier: Tier, shard: Shard, stats: &mut Stats) {
 pub fn meta(tier: Tier) -> Meta {
     Meta {
         level: "model_checking",
-        rule: "stateless DFS over all orders of set_tab_width(0|2|8) / set_style (literal tab, custom key writing a tab, prefix|msg) / style round trip through pb.style().template(..) / set_message / set_prefix / finish_with_message / tick to the stated depth, from three initial configurations (with and without with_tab_width) plus 18 configurations built in the other builder orders (with_tab_width before with_style, with_message/with_prefix before or after with_tab_width); after every operation: no TAB byte reached the terminal, the document equals the reference expansion with the current width, message()/prefix() return the expanded text; non-trivial = an expanded tab or a separator is on screen".into(),
+        rule: "stateless DFS over all orders of set_tab_width(0|2|8) / set_style (literal tab, custom key writing a tab, prefix|msg, literal tabs around a brace that stands for itself) / style round trip through pb.style().template(..) / set_message / set_prefix / finish_with_message / tick to the stated depth, from three initial configurations (with and without with_tab_width) plus 18 configurations built in the other builder orders (with_tab_width before with_style, with_message/with_prefix before or after with_tab_width); after every operation: no TAB byte reached the terminal, the document equals the reference expansion with the current width, message()/prefix() return the expanded text; non-trivial = an expanded tab or a separator is on screen".into(),
         assumptions: vec!["terminal model 80x12; +1 s virtual time between operations".into()],
-        bounds: json!({"configurations": configs(tier).iter().map(|(c, d)| json!({"config": c.config(), "depth": d, "alphabet": 13})).collect::<Vec<_>>()}),
+        bounds: json!({"configurations": configs(tier).iter().map(|(c, d)| json!({"config": c.config(), "depth": d, "alphabet": 14})).collect::<Vec<_>>()}),
         exhaustive: true,
     }
 }
